@@ -145,3 +145,7 @@ Proof.
   - intros. apply run_set_correct; assumption.
   - intros. apply run_border_correct; assumption.
 Qed.
+
+Example ex_border_ok : border ex_mesh <> [] /\ forallb (is_vertex ex_mesh) (border ex_mesh) = true
+                       /\ forallb (is_vertex ex_mesh) [4; 3] = true.
+Proof. split; [discriminate | vm_compute; auto]. Qed.
